@@ -503,6 +503,23 @@ pub fn check_query(env: &mut Env, q: &QSpec) -> Result<QInfo, Verdict> {
             o => return Err(Verdict::Discard(format!("harness:alone:{}", o.short().chars().take(40).collect::<String>()))),
         };
         A_REEXEC.fetch_add(1, Ordering::Relaxed);
+        // the last answer is followed directly by the final dot: it must read the same
+        if i + 1 == printed.len() && l.kind == "final" {
+            let r2 = match env.s.ask(&format!("c29_alone({ac}, \".\", {nt}, R)"), "R") {
+                Outcome::Sols(v) if v.len() == 1 => v[0].clone(),
+                Outcome::Panic(m) => return Err(fail_v(format!("panic:{}", m.split_whitespace().next().unwrap_or("?")), q, format!("reading back answer {:?} with its final dot: {m}", l.text))),
+                o => return Err(Verdict::Discard(format!("harness:alone-dot:{}", o.short().chars().take(40).collect::<String>()))),
+            };
+            if !r2.eq_struct(&r) && !matches!(&r, T::Cmp(n, _) if n == "unreadable") {
+                let kind = match env.s.ask(&format!("c29_last_kind({ac}, K)"), "K") {
+                    Outcome::Sols(v) if v.len() == 1 => v[0].text(),
+                    _ => "unknown".into(),
+                };
+                let symbolic_end = l.text.chars().last().map(|c| "#$&*+-./:<=>?@^~\\".contains(c)).unwrap_or(false);
+                let sig = if symbolic_end { format!("answer-final-dot:merges-with-the-symbol-char-that-ends-the-answer:value-is-{kind}") } else { "answer-final-dot:reads-differently".to_string() };
+                return Err(fail_v(sig, q, format!("last answer {:?}: followed by a space and the end dot it reads as {}, followed directly by the toplevel's final dot as {}", l.text, r.text().chars().take(300).collect::<String>(), r2.text().chars().take(300).collect::<String>())));
+            }
+        }
         let alone = match &r {
             T::Cmp(n, a) if n == "unreadable" && a.len() == 1 => {
                 let b = decode_t(&a[0]).map(|t| t.text()).unwrap_or_default();
@@ -527,6 +544,9 @@ pub fn check_query(env: &mut Env, q: &QSpec) -> Result<QInfo, Verdict> {
                                 _ => 0,
                             };
                             al.sols.push((p[0].clone(), gs));
+                        }
+                        T::Atom(c) if c == "cyclic" => {
+                            return Err(fail_v("answer-not-faithful:cyclic-bindings", q, format!("answer {} of {}: {:?} run alone builds a cyclic term\nsolution: {}", i + 1, printed.len(), l.text, sol.text())));
                         }
                         other => return Err(Verdict::Discard(format!("harness:alone-item:{}", other.text().chars().take(30).collect::<String>()))),
                     }
@@ -1035,7 +1055,7 @@ impl SG {
 }
 
 const ATOMS: &[&str] = &[
-    "a", "b", "foo", "[]", "{}", "!", ";", ",", "|", "-", "+", "*", ":-", "-->", "\\+", "=", "is", "mod", "dynamic", "a b", "A", "_x", "_A", "'", "\\", "\n", "", "[", "αβ", ".", "e", "-1", "1", "/*", "%", "end_of_file", "true", "false", "<", "\\", "^", ":", "?-", "->", "//", "rem", "hello", "\t", "\"",
+    "a", "b", "foo", "[]", "{}", "!", ";", ",", "|", "-", "+", "*", ":-", "-->", "\\+", "=", "is", "mod", "dynamic", "a b", "A", "_x", "_A", "'", "\\", "\n", "", "[", "αβ", ".", "e", "-1", "1", "/*", "%", "end_of_file", "true", "false", "<", "\\", "^", ":", "?-", "->", "//", "rem", "hello", "\t", "\"", "#", "@", "&", "$", "~", "#>", "$-", "a.", "?",
 ];
 const PREFIX_OPS: &[&str] = &["-", "+", "\\+", ":-", "?-", "\\", "dynamic", "f", "$", "@"];
 const INFIX_OPS: &[&str] = &[":", ",", ";", "->", "=", "-", "+", "*", "/", "**", "^", ":-", "-->", "is", "mod", "<", "=..", "\\=", "==", "rem", "//", ">>", "@<", "f", "rdiv", "xor"];
